@@ -69,9 +69,29 @@ THEOREMS = ["Pfl.CFG.genCounters_restores",
             "Pfl.FAObj.tfDeterministic_iff",
             "Pfl.FAObj.mem_call_iff",
             "Pfl.FAObj.det_functional",
-            "Pfl.FAObj.history_independent"]
+            "Pfl.FAObj.history_independent",
+            "Pfl.FAObj.run_wf",
+            "Pfl.FAObj.run_dfa",
+            "Pfl.FAObj.mk_wf",
+            "Pfl.FAObj.api_wf",
+            "Pfl.FAObj.api_dfa"]
 REGEX_TEXTS = ["a", "b", "a b", "a*", "a|b", "(a|b)*", "a b*", "$", "a (b|a)"]
 WORDS = [[], ["a"], ["b"], ["a", "b"], ["a", "a"], ["b", "a"], ["a", "b", "b"]]
+
+
+def exhaustive(tier):
+    """every history of at most 3 mutator calls on an automaton object over two states and one symbol (plus epsilon), for
+    the three classes: returned integers, exceptions and private fields against Pfl/Model/FAObject.lean"""
+    if tier != "thorough":
+        return
+    import itertools
+    for cls in "END":
+        syms = [0] if cls == "N" else [0, None]
+        alphabet = [[k, q, a, r] for k in ("add_t", "rm_t") for q in (0, 1) for a in syms for r in (0, 1)] + \
+                   [[k, q] for k in ("add_s", "rm_s", "add_f", "rm_f") for q in (0, 1)]
+        for n in (1, 2, 3):
+            for h in itertools.product(alphabet, repeat=n):
+                yield {"fo": {"cls": cls, "ops": [list(o) for o in h]}}
 
 
 def generate(rng, tier):
